@@ -9,6 +9,9 @@ From TF Require Import Parse.ExTok Parse.ExParser.
 Definition no_crash {A} (o : outcome A) : Prop :=
   match o with Crash _ => False | _ => True end.
 
+Lemma no_crash_neq {A} (o : outcome A) : no_crash o -> forall s, o <> Crash s.
+Proof. intros H s ->. exact H. Qed.
+
 Lemma no_crash_bind {A B} (x : outcome A) (f : A -> outcome B) :
   no_crash x -> (forall a, x = Ok a -> no_crash (f a)) -> no_crash (bind x f).
 Proof. destruct x; cbn; auto. Qed.
@@ -295,7 +298,7 @@ Section Total.
   Lemma mk_app_no_crash p f x : no_crash (mk_app St step p f x).
   Proof.
     unfold mk_app. pose proof (emit_no_crash (fresh St p) (EvApp (VApp (ctr St p) f x))) as H.
-    destruct (emit _ _ _ _); cbn [bind]; auto. exact I.
+    destruct (emit _ _ _ _); cbn [bind]; cbn; auto.
   Qed.
 
   Lemma annotate_ok p prev t p' : annotate St step p prev t = Ok p' ->
@@ -474,4 +477,19 @@ Section Total.
 
   Theorem parse_type_str_total s : no_crash (parse_type_str lookup_ty s).
   Proof. apply parse_type_toks_total. Qed.
+
+  (* the same, spelled out *)
+  Theorem parse_toks_never_crashes toks n0 s0 s :
+    parse_toks lookup_op lookup_ty decval St step ninputs toks n0 s0 <> Crash s.
+  Proof. apply no_crash_neq, parse_toks_total. Qed.
+
+  Theorem parse_str_never_crashes str n0 s0 s :
+    parse_str lookup_op lookup_ty decval St step ninputs str n0 s0 <> Crash s.
+  Proof. apply no_crash_neq, parse_str_total. Qed.
+
+  Theorem parse_type_toks_never_crashes toks s : parse_type_toks lookup_ty toks <> Crash s.
+  Proof. apply no_crash_neq, parse_type_toks_total. Qed.
+
+  Theorem parse_type_str_never_crashes str s : parse_type_str lookup_ty str <> Crash s.
+  Proof. apply no_crash_neq, parse_type_str_total. Qed.
 End Total.
